@@ -110,10 +110,21 @@ static void c08_case (long idx, vf_rng *r)
     /* destination clipped into several runs so that run starts vary */
     if (vf_chance (r, 1, 3)) { d->n_clip = (int)vf_range (r, 1, 4); for (int i = 0; i < d->n_clip; i++) { int x1 = (int)vf_range (r, 0, d->w - 1); d->clip[i].x1 = x1; d->clip[i].x2 = x1 + (int)vf_range (r, 1, 12); d->clip[i].y1 = (int)vf_range (r, 0, d->h - 1); d->clip[i].y2 = d->clip[i].y1 + (int)vf_range (r, 1, 3); } }
     q.op = PIXMAN_OP_SRC; q.w = d->w; q.h = d->h;
+    /* nearly affine: the bottom row is one unit (1/65536) away from (0, 0, 1), the request a few hundred to a thousand pixels wide, the source
+     * just as large as the true (divided) footprint: walking it as if it were affine ends far from where the projective mapping says */
+    int nearly_affine = 0;
+    if (!wide_src && vf_chance (r, 1, 12)) {
+        d->w = (int)vf_range (r, 300, 1100); d->h = (int)vf_range (r, 1, 2); d->n_clip = 0; q.w = d->w; q.h = d->h; q.sx = q.sy = 0;
+        static const pixman_fixed_t scs[] = { 65536, 65536, 32768, 98304 }; pixman_fixed_t sc = VF_PICK (r, scs); int e0, e1, e2; do { e0 = (int)(vf_next (r) % 3) - 1; e1 = (int)(vf_next (r) % 3) - 1; e2 = (int)(vf_next (r) % 3) - 1; } while (!e0 && !e1 && !e2);
+        s->tr_class = TR_PROJECTIVE; pixman_transform_init_identity (&s->tr); s->tr.matrix[0][0] = sc; s->tr.matrix[2][0] = e0; s->tr.matrix[2][1] = e1; s->tr.matrix[2][2] = 65536 + e2;
+        double xmax = 0; for (int k = 0; k < 2; k++) { double X = k ? d->w : 0.0, wv = (e0 * X + e1 * 1.0) / 65536.0 + (65536 + e2) / 65536.0, xv = sc / 65536.0 * X / wv; if (xv > xmax) xmax = xv; }
+        s->w = (int)xmax + 2; if (s->w > 4000) s->w = 4000; s->h = d->h + 1; if (PIXMAN_FORMAT_BPP (s->fmt) < 8) s->fmt = PIXMAN_a8r8g8b8;
+        s->filter = vf_chance (r, 1, 2) ? PIXMAN_FILTER_NEAREST : PIXMAN_FILTER_BILINEAR; s->n_params = 0; s->repeat = vf_chance (r, 1, 2) ? PIXMAN_REPEAT_NONE : PIXMAN_REPEAT_PAD; nearly_affine = 1;
+    }
     /* wrap-around exactly at the source width: a narrow NORMAL-repeat source walked at a scale of 1, 1/2 or 2 from a position that is a whole
      * pixel, or one unit (1/65536) to either side of it, so that the running coordinate hits k * width (+-1 unit) many times per row */
     int wrap_class = 0;
-    if (!wide_src && !tight_rot && vf_chance (r, 1, 8)) {
+    if (!wide_src && !tight_rot && !nearly_affine && vf_chance (r, 1, 8)) {
         static const pixman_fixed_t scs[] = { 65536, 65536, 32768, 131072, 65536 / 4 }; static const pixman_fixed_t frs[] = { 0x8000, 0x8001, 0x7fff, 0x8001, 0 };
         s->tr_class = TR_SCALE_POS; pixman_transform_init_identity (&s->tr); s->tr.matrix[0][0] = VF_PICK (r, scs); s->tr.matrix[1][1] = vf_chance (r, 1, 2) ? 65536 : VF_PICK (r, scs);
         s->tr.matrix[0][2] = (pixman_fixed_t)(vf_range (r, -3, 9) * 65536) + VF_PICK (r, frs); s->tr.matrix[1][2] = (pixman_fixed_t)(vf_range (r, -2, 4) * 65536) + VF_PICK (r, frs);
@@ -250,7 +261,7 @@ static void c08_case (long idx, vf_rng *r)
     vf_count ("evaluations", npx);
     vf_count (affine ? (conv ? "pixels_affine_convolution" : "pixels_affine_exact") : "pixels_projective", npx);
     if (masked) vf_count ("masked_cases", 1); if (use_over) vf_count ("over_cases", 1);
-    if (wide_src) vf_count ("wide_source_cases", 1); if (tight_rot) vf_count ("tight_quarter_turn_cases", 1); if (wrap_class) vf_count ("wrap_exactly_at_width_cases", 1);
+    if (wide_src) vf_count ("wide_source_cases", 1); if (tight_rot) vf_count ("tight_quarter_turn_cases", 1); if (wrap_class) vf_count ("wrap_exactly_at_width_cases", 1); if (nearly_affine) vf_count ("nearly_affine_wide_cases", 1);
     vf_count ("samples_on_a_boundary", nboundary); vf_count ("projective_not_judged", nambig);
     vf_label ("filter_repeat_transform", "%s/%s/%s", fname, rq_repeat_name (s->repeat), rq_tr_name[s->tr_class]);
     vf_cell ("cells", vf_mix (vf_mix ((uint64_t)s->fmt, s->filter * 16 + s->repeat), vf_mix (s->tr_class, (s->w <= 2) * 2 + (s->h <= 2) + 4 * (d->n_clip > 0))));
